@@ -8,7 +8,7 @@ import json
 class Facts:
     def __init__(self, doc):
         from .normalize import (canonicalize_generics, transparent_helpers, canonical_apis, expand_combinators, eliminate_try,
-                                thread_known_discriminants, expand_int_try_from, expand_for_each, pinned_field_names, expand_result_ok, expand_find_map, pinned_adt_paths, expand_closure_calls, expand_array_try_from, drop_dead_closures, expand_array_from_fn, unroll_literal_loops, materialize_default_methods, hoist_return_conversion, expand_value_combinators)
+                                thread_known_discriminants, expand_int_try_from, expand_for_each, pinned_field_names, expand_result_ok, expand_find_map, pinned_adt_paths, expand_closure_calls, expand_array_try_from, drop_dead_closures, expand_array_from_fn, unroll_literal_loops, materialize_default_methods, hoist_return_conversion, expand_value_combinators, expand_bool_then)
         doc = hoist_return_conversion(doc)
         doc = canonicalize_generics(doc)
         doc = pinned_adt_paths(doc)
@@ -20,6 +20,7 @@ class Facts:
         doc = expand_array_try_from(doc)
         doc = unroll_literal_loops(doc)
         doc = expand_array_from_fn(doc)
+        doc = expand_bool_then(doc)
         doc = expand_closure_calls(doc)
         doc = expand_for_each(doc)
         doc = expand_find_map(doc)
